@@ -16,6 +16,7 @@ import subprocess
 import sys
 import tempfile
 
+from .. import caller
 from .. import common
 from .. import shellbuild
 from .. import model as M
@@ -392,6 +393,8 @@ def eval_case(case: dict) -> dict:
                                dict(detail, message=str(exc)[:300]))
                         continue
                     returned.append((fc, got, idx))
+                    with common.quiet():
+                        caller.after_parse(fc, observe_too=idx % 2 == 0)
                     if doc is None:
                         # nothing was loaded into this instance, yet it "parsed" something
                         entries = sum(len(v) for v in got.values())
@@ -410,13 +413,19 @@ def eval_case(case: dict) -> dict:
                                 f'{common.strip_indices(diff["path"])}')
                         report(mech, dict(detail, diff=diff, document=f'doc{doc}',
                                           reference=ref_kind[doc]))
-        # an earlier returned object changing under later operations: counted, not judged
-        for fc, snap, _idx in returned:
+        # a result that was handed out keeps what it held: the caller parses all its models
+        # first and works with the results afterwards - a later parse (by the same or another
+        # parser object) that rewrites an earlier result makes that result depend on it
+        for fc, snap, at in returned:
+            count('kept_results_compared_again_at_the_end')
             try:
-                if common.first_diff(snap, M.canon_filecontents(fc)) is not None:
-                    count('earlier_result_mutated')
-            except Exception:  # pylint: disable=broad-except
-                count('earlier_result_mutated')
+                diff = common.first_diff(snap, M.canon_filecontents(fc))
+            except Exception as exc:  # pylint: disable=broad-except
+                diff = {'kind': 'unreadable', 'path': '', 'message': str(exc)[:200]}
+            if diff is not None:
+                report(f'kept-result-changed-by-later-operations:{diff["kind"]}:'
+                       f'{common.strip_indices(diff["path"])}',
+                       {'history': history, 'result_of_op': at, 'op': history[at], 'diff': diff})
     finally:
         shutil.rmtree(tmpdir, ignore_errors=True)
 
@@ -500,6 +509,7 @@ def main(tier: str) -> int:
     run = common.Run(PROP, tier)
     n = 200 if tier == 'quick' else 20000
     run.require('process_calls_compared', 'repeats_on_same_instance', 'interleavings',
+                'kept_results_compared_again_at_the_end',
                 'load_file_calls', 'child_references', 'no_document_refusals',
                 'files_rewritten_between_loads', 'loads_by_relative_name',
                 'refusals_of_a_malformed_document')
